@@ -76,6 +76,19 @@ CLAIMS["C18"] = dict(
          "evaluated.",
     technique="copy/eq/hash protocol lints: attribute-set completeness, all-paths-return dataflow, swap-invariance of conditions")
 
+CLAIMS["C19"] = dict(
+    level="other", engine="grammar-lalr",
+    text="Decides the table-level facts the mindsdb error message is built from, for all LALR states and all tokens: the "
+         "expected-token list can contain nonassoc error entries, and no unverified suggestion (single candidate / "
+         "end-of-input listing) may be one; every display string (filter partially evaluated from make_suggestion's source) "
+         "lexes back to exactly its token under the ordered master regex and every grammar token is reachable by the lexer; "
+         "placeholder values are convertible by the grammar actions; every other suggestion is dominated by a successful "
+         "re-parse of this call's tokens; the echoed text/caret width do not come from lexer-rewritten token values; the lexer "
+         "error callback always raises. Caret/line offset arithmetic over arbitrary layouts is NOT decided.",
+    note="Trusted: sly passes list(actions[state].keys()) as expected tokens (anchor checked); LALR tables as in C03. The "
+         "position arithmetic of error_location and LR(1)-exact acceptability of merged reduce look-aheads are outside.",
+    technique="LALR table scan x partially evaluated suggestion filter x first-match lexer simulation; dominance of re-parse")
+
 NA_PENDING = "check under construction in this session; not claimed until its rule module is committed"
 
 
